@@ -44,21 +44,35 @@ shutil.rmtree('/var/tmp/seedchk/target_' + sid, ignore_errors=True)
 if not ok:
     json.dump(meta, open(f'{dst}/meta.json', 'w'), indent=1)
     sys.exit(4)
-# run the checks against /repo with the patch applied
-assert subprocess.run('git -C /repo status --porcelain', shell=True, capture_output=True, text=True).stdout.strip() == '', '/repo not clean'
-subprocess.run(f'git -C /repo apply {dst}/patch.diff', shell=True, check=True)
+# run the checks against the patched tree: /repo itself (git apply ... git checkout -- .), or - when /repo is in use by a long
+# background run (SEED_SCRATCH=1) - a scratch copy of /repo's HEAD that the checks are pointed at through VERIF_REPO
 res = {}
+scratch_repo = None
+if os.environ.get('SEED_SCRATCH'):
+    scratch_repo = '/var/tmp/seedrepo_' + sid
+    shutil.rmtree(scratch_repo, ignore_errors=True)
+    os.makedirs(scratch_repo)
+    subprocess.run(f'git -C /repo archive HEAD | tar -x -C {scratch_repo}; cp /repo/Cargo.lock {scratch_repo}/ 2>/dev/null; cd {scratch_repo} && git init -q . && git apply {dst}/patch.diff', shell=True, check=True)
+    cenv = dict(os.environ, VERIF_REPO=scratch_repo)
+else:
+    assert subprocess.run('git -C /repo status --porcelain', shell=True, capture_output=True, text=True).stdout.strip() == '', '/repo not clean'
+    subprocess.run(f'git -C /repo apply {dst}/patch.diff', shell=True, check=True)
+    cenv = dict(os.environ)
 try:
     for c in checks:
         t0 = time.time()
-        p = subprocess.run(f'./check {c} --tier quick', shell=True, cwd=V, capture_output=True, text=True)
+        p = subprocess.run(f'./check {c} --tier ' + os.environ.get('SEED_TIER', 'quick'), shell=True, cwd=V, capture_output=True, text=True, env=cenv)
         lines = [l for l in p.stdout.split('\n') if l.startswith(('VIOLATION', 'KNOWN', 'INCONCLUSIVE', '[' + c))]
         res[c] = {'exit': p.returncode, 'seconds': round(time.time() - t0), 'lines': [l[:400] for l in lines[:6]]}
         viol = [l for l in p.stdout.split('\n') if l.startswith('  ') and 'VIOLATION' not in l and not l.startswith('  [')]
         res[c]['what'] = [v.strip()[:400] for v in viol[:3]]
         print(c, json.dumps(res[c], indent=1))
 finally:
-    subprocess.run('git -C /repo checkout -- .', shell=True, check=True)
+    if scratch_repo:
+        shutil.rmtree(scratch_repo, ignore_errors=True)
+    else:
+        subprocess.run('git -C /repo checkout -- .', shell=True, check=True)
+meta['run_against'] = 'scratch copy of /repo HEAD via VERIF_REPO' if scratch_repo else '/repo (git apply, then git checkout -- .)'
 meta['checks'] = res
 meta['detected_by'] = [c for c, r in res.items() if r['exit'] == 1]
 meta['needs'] = open(f'{dst}/notes.txt').read()[:1500] if os.path.exists(f'{dst}/notes.txt') else ''
